@@ -222,6 +222,7 @@ class Interp:
         self._default_natives()
         self._modconst: dict[tuple[str, str], Any] = {}
         self.called: set[str] = set()
+        self.sites: set[tuple[str, int, str]] = set()     # executed construction sites
 
     def _default_natives(self) -> None:
         """Standard-library callables the analysed code uses, as pure functions."""
@@ -892,6 +893,8 @@ class Interp:
                 raise AbsRaise(f"ValueError: {args[0]!r} is not a valid {f.ci.name}", where)
             init = self.pm.method(f.ci, "__init__")
             obj = AObj(f.ci.name, _complete=True)
+            if fi is not None:
+                self.sites.add((fi.unit.path, getattr(n, "lineno", 0), f.ci.name))
             if init is not None:
                 self.call(init, [obj] + args, kwargs)
             elif args or kwargs:
